@@ -8,7 +8,9 @@ Traces == JsonDeserialize(IOEnv.TRACE_FILE)
 VARIABLES tid, l, rows, live, returned, crashed
 svars == <<rows, live, returned, crashed>>
 Ev == Traces[tid][l]
-Clause(name, b) == IF b THEN TRUE ELSE PrintT(<<"FAIL", tid, l, name>>) /\ FALSE
+\* diagnostic mode (ALLCLAUSES = "1", trace-mutation self-test only): a failing clause is reported and evaluation goes on, so that clauses
+\* shadowed by an earlier one in the same conjunction are exercised too; in every registered check ALLCLAUSES = "0"
+Clause(name, b) == IF b THEN TRUE ELSE PrintT(<<"FAIL", tid, l, name>>) /\ (IOEnv.ALLCLAUSES = "1")
 Put(f, k, v) == [ i \in (DOMAIN f) \cup {k} |-> IF i = k THEN v ELSE f[i] ]
 RECURSIVE PutAll(_, _, _)
 PutAll(f, items, i) == IF i > Len(items) THEN f ELSE PutAll(Put(f, items[i][1], items[i][2]), items, i + 1)
